@@ -104,6 +104,9 @@ class FnTranslator:
         self.self_type = self_type
         self.struct_fields = struct_fields or {}
         self.calls = set()
+        self.interior = False          # multitest.rs: RefCell / anyhow / map_err are given their meaning (see mcall)
+        self.externals = set()         # method names that are operations of a foreign component
+        self.own_methods = {}          # method name -> qualified name of a translated method it resolves to
 
     def con_name(self, segs):
         # (a value of a type-state builder is a record of the type, whatever the state marker)
@@ -227,20 +230,54 @@ class FnTranslator:
             return "(EField %s %s)" % (self.expr(e[1]), cs(S(e[2])))
         if h == "call":
             segs = self.path_segs(e[1])
+            if self.interior and "::".join(segs) in ("RefMut::map", "Ref::map") and len(e) == 4 and e[3][0] == "unsupported" \
+                    and re.fullmatch(r"expr \| (\w+) \| \1", S(e[3][1]).strip()):
+                return self.expr(e[2])             # a borrow mapped through the identity closure
             args = clist([self.expr(a) for a in e[2:]])
             if segs[-1][:1].isupper():
                 return "(ECon %s %s)" % (cs(self.con_name(segs)), args)
             if segs[0] == "Self" and self.self_type:
                 segs = [self.self_type] + segs[1:]
             name = "::".join(segs)
+            if self.interior and name in FOREIGN:
+                tgt = FOREIGN[name]
+                if tgt == "into":
+                    return "(ECall \"into\" %s)" % args
+                return "(ECon %s %s)" % (cs(tgt), args)
             self.calls.add(name)
             return "(ECall %s %s)" % (cs(name), args)
         if h == "mcall":
             name = S(e[2])
             if name == "unwrap_or_default":
                 name = self.unwrap_default_name(e[1])
+            if name == "into" and self.interior:
+                # a conversion into another type (StdError into the contract's error type): kept visible
+                return "(ECon \"Into::into\" [%s])" % self.expr(e[1])
             if name in ("to_owned", "clone"):
                 name = "into"                      # value-preserving conversions
+            if name in ("borrow", "borrow_mut") and self.interior:
+                name = "into"                      # RefCell: interior mutability is transparent (the state lives in the callee)
+            mt = re.fullmatch(r"(is|downcast)<(\w+)>", name)
+            if mt and self.interior:
+                # anyhow::Error::{is, downcast}::<T>(): the type written in the source becomes a string argument
+                return "(ECall %s [%s; EConst (VStr %s)])" % (cs("anyhow::" + mt.group(1)), self.expr(e[1]), cs(mt.group(2)))
+            if name == "map_err" and self.interior and len(e) == 4 and e[3][0] == "path" and len(e[3]) == 2:
+                # Result::map_err with a named function: the definition of map_err, inlined
+                f = S(e[3][1])
+                self.calls.add(f)
+                return ("(EMatch %s [(PCon \"Ok\" [PVar \"map_err_v\"], ECon \"Ok\" [EVar \"map_err_v\"]); "
+                        "(PCon \"Err\" [PVar \"map_err_e\"], ECon \"Err\" [ECall %s [EVar \"map_err_e\"]])])" % (self.expr(e[1]), cs(f)))
+            if name in self.externals:
+                # an operation of a foreign component (the chain): a call of a function the theorems quantify over
+                q = "extern::" + name
+                self.calls.add(q)
+                return "(ECall %s %s)" % (cs(q), clist([self.expr(e[1])] + [self.expr(a) for a in e[3:]]))
+            if name in self.own_methods:
+                q = self.own_methods[name]
+                self.calls.add(q)
+                return "(ECall %s %s)" % (cs(q), clist([self.expr(e[1])] + [self.expr(a) for a in e[3:]]))
+            if name == "unwrap" and self.interior:
+                return "(ECall \"unwrap\" [%s])" % self.expr(e[1])
             if name not in ("len", "is_empty", "into", "to_string", "unwrap_or_default_string"):
                 raise TranslateError("unsupported method call .%s()" % name)
             return "(ECall %s %s)" % (cs(name), clist([self.expr(e[1])] + [self.expr(a) for a in e[3:]]))
@@ -298,13 +335,19 @@ class FnTranslator:
         raise TranslateError("unwrap_or_default on a value whose type is not a declared Option<String> field")
 
 
-def translate_fn(sx, self_type=None, struct_fields=None, qualified=None):
+# functions of other crates with a fixed meaning: a constructor of the value they build, or a value-preserving conversion
+FOREIGN = {"StdError::generic_err": "StdError::GenericErr", "Addr::unchecked": "into", "RefCell::new": "into"}
+
+
+def translate_fn(sx, self_type=None, struct_fields=None, qualified=None, setup=None):
     """(fn "name" (consts ..) (params (p name type)..) (cfg "..") body) -> (coq fn_def text, callee set)"""
     if sx[0] != "fn":
         raise TranslateError("not a fn: %r" % (sx[0],))
     name = S(sx[1])
     consts = [S(c) for c in sx[2][1:]]
     t = FnTranslator(self_type, struct_fields)
+    if setup:
+        setup(t)
     params, prelude = [], []
     for i, p in enumerate(sx[3][1:]):
         if p[0] == "pp":            # a destructuring parameter pattern: bound from a fresh parameter
@@ -345,7 +388,8 @@ def fetch_ast(path):
     return kv
 
 
-BUILTINS = {"len", "is_empty", "konst::cmp_str", "konst::eq_str", "into", "to_string", "unwrap_or_default_string", "Binary::default"}
+BUILTINS = {"len", "is_empty", "konst::cmp_str", "konst::eq_str", "into", "to_string", "unwrap_or_default_string", "Binary::default",
+            "anyhow::is", "anyhow::downcast", "unwrap"}
 
 
 def translate_utils():
@@ -406,9 +450,10 @@ def translate_builder():
     return out, fields
 
 
-def translate_methods(relpath, wanted):
+def translate_methods(relpath, wanted, setup=None, extra_known=(), kv=None):
     """methods of impl blocks of a file: wanted = {impl name: [method names]} -> list of fn_def texts (qualified names)"""
-    kv = fetch_ast(os.path.join(common.REPO, "sylvia", "src", *relpath.split("/")))
+    if kv is None:
+        kv = fetch_ast(os.path.join(common.REPO, "sylvia", "src", *relpath.split("/")))
     structs = {}
     for k, v in kv:
         if k == "struct":
@@ -431,8 +476,8 @@ def translate_methods(relpath, wanted):
         if q in found:
             raise TranslateError("%s: %s is defined more than once" % (relpath, q))
         base = iname.partition("[")[0]
-        text, cl = translate_fn(sx, iname, structs.get(base, {}), q)
-        bad = cl - BUILTINS - known
+        text, cl = translate_fn(sx, iname, structs.get(base, {}), q, setup=setup)
+        bad = cl - BUILTINS - known - set(extra_known)
         if bad:
             raise TranslateError("%s: %s calls %s, which is not translated" % (relpath, q, sorted(bad)))
         out.append(text)
@@ -441,6 +486,36 @@ def translate_methods(relpath, wanted):
     if missing:
         raise TranslateError("%s: methods not found: %s" % (relpath, missing))
     return out
+
+
+MT_WANTED = {"App": ["new", "app_mut"], "Proxy": ["new"],
+             "ExecProxy": ["new", "with_funds", "call"], "MigrateProxy": ["new", "call"]}
+MT_EXTERNALS = {"execute_contract", "migrate_contract"}
+
+
+def translate_multitest():
+    """sylvia/src/multitest.rs: the proxies that send a message to the chain, and downcast_error. The chain's own
+    operations (execute_contract, migrate_contract of cw-multi-test) are calls of `extern::..` functions."""
+    path = os.path.join(common.REPO, "sylvia", "src", "multitest.rs")
+    kv = fetch_ast(path)
+
+    def setup(t):
+        t.interior = True
+        t.externals = set(MT_EXTERNALS)
+        t.own_methods = {"app_mut": "App::app_mut"}
+    out = translate_methods("multitest.rs", MT_WANTED, setup=setup, extra_known={"downcast_error"} | {"extern::" + x for x in MT_EXTERNALS}, kv=kv)
+    for k, v in kv:
+        if k == "fn":
+            sx = parse_sx(v)
+            if S(sx[1]) == "downcast_error":
+                if S(sx[4][1]):
+                    raise TranslateError("multitest.rs: downcast_error is cfg-gated")
+                text, cl = translate_fn(sx, setup=setup)
+                bad = cl - BUILTINS - {"anyhow::is", "anyhow::downcast", "unwrap"}
+                if bad:
+                    raise TranslateError("multitest.rs: downcast_error calls %s" % sorted(bad))
+                return out + [text]
+    raise TranslateError("multitest.rs: fn downcast_error not found")
 
 
 TYPES_WANTED = {"ExecutorBuilder[Empty]": ["new"], "ExecutorBuilder": ["with_funds", "funds", "contract"],
@@ -471,6 +546,11 @@ def generate():
     except TranslateError as e:
         ctxs, _ = [], errors.append("sylvia/src/ctx.rs: %s" % e)
 
+    try:
+        mt = translate_multitest()
+    except TranslateError as e:
+        mt, _ = [], errors.append("sylvia/src/multitest.rs: %s" % e)
+
     def prog(fns):
         return "  [ " + ";\n    ".join(fns) + " ]." if fns else "  []."
     text = "\n".join([
@@ -485,7 +565,9 @@ def generate():
         "(* sylvia/src/types.rs: ExecutorBuilder (both type states) and the helpers of Remote *)",
         "Definition types_program : program :=", prog(types), "",
         "(* sylvia/src/ctx.rs: the conversions of the entry-point argument tuples into the handler contexts *)",
-        "Definition ctx_program : program :=", prog(ctxs), ""])
+        "Definition ctx_program : program :=", prog(ctxs), "",
+        "(* sylvia/src/multitest.rs: the proxies that send execute / migrate messages to the chain, and downcast_error *)",
+        "Definition mt_program : program :=", prog(mt), ""])
     return text, errors
 
 
